@@ -68,6 +68,17 @@ Fixpoint lcp (a b : string) : string :=
   end.
 Definition commonprefix (l : list string) : string :=
   match l with [] => "" | x :: l' => fold_left lcp l' x end.
+Fixpoint lcp_list (a b : list string) : list string :=
+  match a, b with
+  | x :: a', y :: b' => if String.eqb x y then x :: lcp_list a' b' else []
+  | _, _ => []
+  end.
+(* ".".join(os.path.commonprefix([p.split(".") for p in packages])): the common prefix by package SEGMENTS *)
+Definition common_segments (l : list string) : string :=
+  match map (split_on "."%char) l with
+  | [] => ""
+  | x :: r => sjoin "." (fold_left lcp_list r x)
+  end.
 Definition is_dot (c : ascii) : bool := Ascii.eqb c "."%char.
 Definition rstrip_dots (s : string) : string := rstrip_by is_dot s.
 Fixpoint dedup_acc (seen : list string) (l : list string) : list string :=
@@ -228,7 +239,7 @@ Definition match_package (s : string) : option (string * string * string) :=
 Record naming := { n_name : string; n_namespace : list string; n_version : string; n_proto_package : string; n_old : bool }.
 Definition nonempty (s : string) : bool := negb (is_empty s).
 Definition naming_build (packages : list string) (o : options) : res naming :=
-  let root := rstrip_dots (commonprefix packages) in
+  let root := common_segments packages in
   if is_empty root then Err ENoCommonRoot else
   match match_package root with
   | None => Err ENoRegexMatch
@@ -397,7 +408,7 @@ Definition candidates (templates : list string) (a : rapi) (o : ropts) : res (li
 Definition in_pkg (package p : string) : bool :=
   is_empty package || String.eqb p package || starts_with (package ++ ".") p.
 Definition build_rapi (files : list pfile) (to_generate : list string) (o : options) : res rapi :=
-  let package := rstrip_dots (commonprefix (map pf_package (filter (fun f => mem_str (pf_name f) to_generate) files))) in
+  let package := common_segments (map pf_package (filter (fun f => mem_str (pf_name f) to_generate) files)) in
   let targets0 := filter (fun f => in_pkg package (pf_package f)) files in
   bind (naming_build (map pf_package targets0) o) (fun n =>
     let files' := sanitize_all [] files in
